@@ -119,7 +119,9 @@ def build(ch):
         snum += 1
     axis = Q @ np.array([0.0, 0.0, 1.0])
     base = list(hex_reference(listed, axis))
-    rng = [(-1, 1), (-1, 1)]
+    # a second (replica) lattice doubles the arrangement: those decks use a 2 x 2 range
+    replica = ch.choose('replica', ['none', 'like-rot', 'like-transl', 'explicit-rot'])
+    rng = [(-1, 1), (-1, 1)] if replica == 'none' else [(0, 1), (-1, 0)]
     if nplanes == 8:
         top_first = ch.choose('top-first', [True, False])
         zlo, zhi = -1.0, 1.5
@@ -147,8 +149,30 @@ def build(ch):
         e = np.zeros(3); e[ax] = 1.0
         d.add_surface(k + 1, 'p', list(Q @ e) + [val])
     d.add_cell(HCell(10, ('*', ('*', ('*', 1, -2), ('*', 3, -4)), ('*', 5, -6)), fill=1))
-    d.add_cell(HCell(19, ('^', 10), imp=1))
-    d.add_cell(lat)
+    # optionally a second lattice cell bounded by the same surfaces: a LIKE n BUT replica moved by a TRCL
+    # (translation, or rotation about the prism axis + translation), in its own universe and container
+    if replica != 'none':
+        shift = Q @ np.array([30.0, 0.0, 0.0])
+        if replica == 'like-transl':
+            m2 = refsem.Motion(shift)
+        else:
+            Rax = refsem.rotation(axis, 30.0)
+            m2 = refsem.Motion(shift, Rax.T)
+        lat2 = HCell(21, expr, mat=4, rho='-1.5', u=6, lat=2)
+        lat2.base, lat2.ranges, lat2.array, lat2.single = lat.base, lat.ranges, list(lat.array), False
+        lat2.trcl = Tr(m2, 'star' if replica != 'like-transl' else 'inline3')
+        for k, (ax, val) in enumerate([(0, 21.0), (0, 39.0), (1, -9.0), (1, 9.0), (2, -9.0), (2, 9.0)]):
+            e = np.zeros(3); e[ax] = 1.0
+            d.add_surface(k + 11, 'p', list(Q @ e) + [val])
+        d.add_cell(HCell(11, ('*', ('*', ('*', 11, -12), ('*', 13, -14)), ('*', 15, -16)), fill=6))
+        d.add_cell(HCell(19, ('*', ('^', 10), ('^', 11)), imp=1))
+        d.add_cell(lat)
+        d.add_cell(lat2)
+        d.replica_like = replica.startswith('like')
+    else:
+        d.add_cell(HCell(19, ('^', 10), imp=1))
+        d.add_cell(lat)
+        d.replica_like = False
     # fillers: asymmetric splits through the hexagon (planes in the lattice frame)
     c3 = Q @ np.array([centre2[0], centre2[1], 0.0])
     na = Q @ np.array([1.0, 0.2, 0.0]); nb = Q @ np.array([-0.3, 1.0, 0.0])
@@ -157,11 +181,29 @@ def build(ch):
     d.add_cell(HCell(31, -41, mat=1, rho='-2.7', u=2)); d.add_cell(HCell(32, 41, mat=2, rho='-7.8', u=2))
     d.add_cell(HCell(33, -42, mat=3, rho='-1.0', u=3)); d.add_cell(HCell(34, 42, mat=1, rho='-2.7', u=3))
     d.mats = dict(c06.MATS)
-    return d.finish()
+    d.finish()
+    if d.replica_like:
+        # write the replica as LIKE 20 BUT ... (same surfaces, same fill array)
+        txt, st_ = d.cell(21).trcl.paren()
+        kw = ('*trcl=(%s)' if st_ else 'trcl=(%s)') % txt
+        d.cells = [('21 like 20 but %s u=6' % kw) if c.startswith('21 ') else c for c in d.cells]
+    return d
+
+
+def build_single(ch):
+    return build(c06.Preset(ch, {'replica': 0}))
+
+
+def build_replica(ch):
+    k = ch.choose('replica-kind', [1, 2, 3], free=True)
+    return build(c06.Preset(ch, {'replica': k}))
 
 
 def scenarios(tier):
-    return [Scn('hex', build, 3 if tier == 'quick' else 4, 4, 'all choices costed; deviation-bounded')]
+    q = tier == 'quick'
+    return [Scn('hex', build_single, 3 if q else 4, 4, 'one lattice; all choices costed; deviation-bounded'),
+            Scn('hex-replica', build_replica, 1 if q else 2, 2,
+                'two lattice cells bounded by the same surfaces, the second a (LIKE n BUT) replica moved by a TRCL')]
 
 
 def check_state(scn, st):
@@ -171,9 +213,9 @@ def check_state(scn, st):
 
 def canaries():
     from ..explore import Chooser
-    st = build(Chooser(()))
+    st = build_single(Chooser(()))
     ok = c06.check_state('hex', st)['ok']
-    st2 = build(Chooser(()))
+    st2 = build_single(Chooser(()))
     lat = st2.cell(20)
     lat.base = [lat.base[1], lat.base[0]]
     return [('c07-baseline', ok), ('c07-swapped-base-vectors-detected', not c06.check_state('hex', st2)['ok'])]
